@@ -78,7 +78,9 @@ def check_stack(ck, spec, kind):
     ck.fact(f"step.one_key_per_component@{name}", ok_keys, f"T{len(kT)} R{len(kR)} Term{len(kTerm)} Init{len(kInit)}")
     if not ok_keys:
         return
-    fresh = not any(kInit[0].eq(k) for k in (kT[0], kR[0], kTerm[0], key)) and kInit[0].decl().name().startswith("ksplit")
+    # "freshly drawn": the reset key is not one of the keys that produced the transition, reward or termination of this step (how it is derived
+    # from the step key — split, fold_in, ... — is not constrained by the statement)
+    fresh = not any(kInit[0].eq(k) for k in (kT[0], kR[0], kTerm[0]))
     ck.fact(f"step.reset_key_fresh@{name}", fresh, f"reset key {kInit[0]} vs transition {kT[0]}, reward {kR[0]}, terminal {kTerm[0]}")
     s2, c2 = ref.transition(s, counters, a, kT[0])
     r = ref.reward(s, a, s2, kR[0])
